@@ -72,7 +72,7 @@ Qed.
 (* when no iteration breaks, fails or leaves a break depth pending, the body
    runs exactly once per element, in order *)
 Theorem vloop_visits_all n : forall xs i c,
-  (forall c0 c1 br, body fr (child n) c0 false = (c1, br) -> (br = BNone \/ br = BCont) /\ brkD c1 = 0) ->
+  (forall c0 c1 br, brkD c0 = 0 -> body fr (child n) c0 false = (c1, br) -> (br = BNone \/ br = BCont) /\ brkD c1 = 0) ->
   brkD c = 0 ->
   map (fun e => (fst (fst e), snd (fst e))) (vloop_entries n xs i c false) =
   combine (seq i (List.length xs)) xs.
@@ -84,7 +84,7 @@ Proof.
   { subst c1. unfold ctx_set, set_key. destruct (loopKey n); simpl; exact H0. }
   unfold iterate. rewrite Hb1. cbn [Nat.eqb negb orb].
   destruct (body fr (child n) c1 false) as [c2 br] eqn:Eb.
-  destruct (Hb _ _ _ Eb) as [[->| ->] Hd].
+  destruct (Hb _ _ _ Hb1 Eb) as [[->| ->] Hd].
   - rewrite Hd. cbn [Nat.eqb negb app map fst snd]. f_equal. apply IH; assumption.
   - cbn [app map fst snd]. f_equal. apply IH; assumption.
 Qed.
